@@ -14,6 +14,32 @@ pub const DICT: &[&[u8]] = &[
     b"<a b='1' c=\"2\" b='3'/>", b"<a 1='x'/>", b"<a b='x\xffy'/>", b"</>", b"<>", b"<a><b></a></b>",
 ];
 
+pub const FRAGMENTS: &[&[u8]] = &[
+    b"<a/>", b"<b/>", b"<c/>", b"<a></a>", b"<a><b/></a>", b"<b><a/></b>", b"<a><a/></a>", b"<b><b/><b/></b>", b"t", b" ", b"<!--c-->", b"<a x='1'/>",
+    b"<a y='2' x='1'></a>", b"<b>t</b>", b"<a><![CDATA[d]]></a>", b"<?pi?>", b"<c><a/><b/></c>", b"<a><c><a/></c></a>", b"</a>", b"<a>", b"<b x='1' x='2'/>",
+    b"<ns:a/>", b"<A/>",
+];
+
+/// the first `n_pieces` well-formed fragments, for the small-scope exhaustive histories of C07/C08
+pub fn fragment_inputs(n_pieces: usize, max_len: usize) -> Vec<Vec<u8>> {
+    let pieces = &FRAGMENTS[..n_pieces.min(FRAGMENTS.len())];
+    let mut out: Vec<Vec<u8>> = vec![vec![]];
+    let mut level: Vec<Vec<u8>> = vec![vec![]];
+    for _ in 0..max_len {
+        let mut next = Vec::new();
+        for base in &level {
+            for p in pieces {
+                let mut v = base.clone();
+                v.extend_from_slice(p);
+                next.push(v);
+            }
+        }
+        out.extend(next.iter().cloned());
+        level = next;
+    }
+    out
+}
+
 fn pos(t: &mut Tape, len: usize) -> usize {
     if len == 0 {
         0
@@ -113,7 +139,24 @@ fn byte_domain() -> Domain {
 
 /// tapes.a = structure, tapes.b = surface, `m` = mutation tape (caller strips its own config bytes first)
 pub fn decode_bytes(tapes: &Tapes, m: &mut Tape) -> ByteCase {
-    match m.weighted(&[10, 2, 2, 1]) {
+    match m.weighted(&[10, 2, 2, 1, 3]) {
+        4 => {
+            // fragments: several top-level pieces per input (multi-root inputs are accepted by the reader),
+            // small alphabet so that the same names meet again across parse / extend / extend
+            let n = 1 + m.choose(3);
+            let mut inputs = Vec::new();
+            for _ in 0..n {
+                let k = 1 + m.choose(6);
+                let mut v = Vec::new();
+                for _ in 0..k {
+                    let piece: &[u8] = *m.pick(FRAGMENTS);
+                    v.extend_from_slice(piece);
+                }
+                inputs.push(v);
+            }
+            let k = inputs.len();
+            ByteCase { inputs, kind: "fragments", mutated: vec![false; k] }
+        }
         1 => {
             // raw bytes, possibly with tokens sprinkled in
             let n = 1 + m.choose(3);
